@@ -947,9 +947,10 @@ class LangServer:
             return sub_string.strip(), arg_string.split(","), sections[-1].start
 
         def check_optional(arg, params: dict):
-            opt_split = arg.split("=")
-            if len(opt_split) > 1:
-                opt_arg = opt_split[0].strip().lower()
+            # keyword=value, not the comparison keyword == value
+            opt_match = re.match(r"\s*(\w+)\s*=(?!=)", arg)
+            if opt_match:
+                opt_arg = opt_match.group(1).lower()
                 for i, param in enumerate(params):
                     param_split = param["label"].split("=")[0]
                     if param_split.lower() == opt_arg:
